@@ -21,6 +21,8 @@ def run(res, tier, rng, table_diffs=()):
     progs += ['functie f() { "abc" } f()', "[1.5, \"s\", [2.5]]", "stel a = [1]; a[0] = a; a", "stel a = [[1.5]]; stel b = [a, a]; b",
               "1.5 + 2.5", "\"a\" < \"b\"", "stel s = \"xyz\"; s[0] = \"q\"; 1 / 0", "functie f(x) { [x, x] } f(f(1.5))[0][1]",
               "print([1.5, \"x\"]); lengte(1)", "stel a = [1.5]; functie g() { a[0] = [a]; 0 } g(); a", "zz + 1.5", "\"unterminated", "[1.5, 2.5"]
+    # every root group x every kind of return (the value a run hands back must be released exactly once, by its receiver)
+    progs += [src for _, src in C03.root_matrix()]
     full = core.impl(["evalx 1000000 " + hx(p) for p in progs])
     mfull = core.model(["evalx 1000000 " + hx(p) for p in progs])
     reqs, meta = [], []
